@@ -410,3 +410,90 @@ Definition round_half_even (num den : Z) : Z :=
   if 2 * r <? den then q
   else if den <? 2 * r then q + 1
   else if Z.even q then q else q + 1.
+
+(* ---- sorted(set(l)) for integers ---------------------------------------- *)
+(* a set has no order and no duplicates; sorted() of it is the strictly
+   ascending list of the distinct elements *)
+Definition sort_dedup (l : list Z) : list Z :=
+  py_sorted Z.leb (nodup Z.eq_dec l).
+
+Lemma Zleb_total x y : (x <=? y) = true \/ (y <=? x) = true.
+Proof. lia. Qed.
+Lemma Zleb_trans x y z :
+  (x <=? y) = true -> (y <=? z) = true -> (x <=? z) = true.
+Proof. lia. Qed.
+
+Lemma sort_dedup_In x l : In x (sort_dedup l) <-> In x l.
+Proof.
+  unfold sort_dedup. split; intros H.
+  - apply (nodup_In Z.eq_dec). eapply Permutation_in; [apply py_sorted_perm|exact H].
+  - eapply Permutation_in; [symmetry; apply py_sorted_perm|].
+    now apply nodup_In.
+Qed.
+
+Lemma le_sorted_NoDup_strict l :
+  StronglySorted (fun a b => (a <=? b) = true) l -> NoDup l ->
+  StronglySorted Z.lt l.
+Proof.
+  induction 1 as [|x l Hs IH Hf]; intros Hnd; constructor;
+    inversion Hnd as [|? ? Hx Hl]; subst; auto.
+  apply Forall_forall. intros y Hy. rewrite Forall_forall in Hf.
+  specialize (Hf y Hy). assert (x <> y) by (intros ->; contradiction). lia.
+Qed.
+
+Lemma py_sorted_strict l : NoDup l -> StronglySorted Z.lt (py_sorted Z.leb l).
+Proof.
+  intros Hnd. apply le_sorted_NoDup_strict.
+  - apply py_sorted_sorted; [exact Zleb_total|exact Zleb_trans].
+  - eapply Permutation_NoDup; [symmetry; apply py_sorted_perm|exact Hnd].
+Qed.
+
+Lemma sort_dedup_sorted l : StronglySorted Z.lt (sort_dedup l).
+Proof. apply py_sorted_strict, NoDup_nodup. Qed.
+
+Lemma strict_sorted_unique a :
+  forall b, StronglySorted Z.lt a -> StronglySorted Z.lt b ->
+            (forall x, In x a <-> In x b) -> a = b.
+Proof.
+  induction a as [|x a IH]; intros b Ha Hb Hab.
+  - destruct b as [|y b]; [reflexivity|].
+    exfalso. apply (proj2 (Hab y)). now left.
+  - destruct b as [|y b]; [exfalso; apply (proj1 (Hab x)); now left|].
+    inversion Ha as [|? ? Ha' Hxa]; subst.
+    inversion Hb as [|? ? Hb' Hyb]; subst.
+    rewrite Forall_forall in Hxa, Hyb.
+    assert (x = y).
+    { destruct (proj1 (Hab x) (or_introl eq_refl)) as [E|Hin]; [auto|].
+      destruct (proj2 (Hab y) (or_introl eq_refl)) as [E|Hin']; [auto|].
+      specialize (Hyb x Hin). specialize (Hxa y Hin'). lia. }
+    subst y. f_equal. apply IH; auto.
+    intros z. split; intros Hz.
+    + destruct (proj1 (Hab z) (or_intror Hz)) as [E|Hin]; [|exact Hin].
+      specialize (Hxa z Hz). lia.
+    + destruct (proj2 (Hab z) (or_intror Hz)) as [E|Hin]; [|exact Hin].
+      specialize (Hyb z Hz). lia.
+Qed.
+
+(* the specification of sorted(set(l)): the unique strictly ascending list
+   with the elements of l *)
+Theorem sort_dedup_spec l r :
+  (StronglySorted Z.lt r /\ forall x, In x r <-> In x l) <-> r = sort_dedup l.
+Proof.
+  split.
+  - intros [Hs Hin]. apply strict_sorted_unique; auto using sort_dedup_sorted.
+    intros x. rewrite sort_dedup_In. apply Hin.
+  - intros ->. split; [apply sort_dedup_sorted|intros x; apply sort_dedup_In].
+Qed.
+
+Theorem sort_dedup_id l : StronglySorted Z.lt l -> sort_dedup l = l.
+Proof.
+  intros H. symmetry. apply sort_dedup_spec. split; [exact H|tauto].
+Qed.
+
+Lemma StronglySorted_filter {B} (R : B -> B -> Prop) (p : B -> bool) l :
+  StronglySorted R l -> StronglySorted R (filter p l).
+Proof.
+  induction 1 as [|x l Hs IH Hf]; cbn [filter]; [constructor|].
+  destruct (p x); [|exact IH]. constructor; [exact IH|].
+  rewrite Forall_forall in *. intros y Hy. apply filter_In in Hy. now apply Hf.
+Qed.
